@@ -23,7 +23,7 @@ from vmon.props.c11 import solo_result
 
 LEVEL = "exploration"
 SHARDS = {"quick": 16, "thorough": 16}
-MUST = ["spelling.styles", "trivia.comment", "trivia.pi", "trivia.whitespace", "trivia.paths_probed", "special_names.loads", "load.forms_rotated", "layout.one-line", "layout.crlf", "layout.blank-lines", "layout.tabs", "layout.no-indent", "history.runs", "history.failed_prior_loads",
+MUST = ["spelling.styles", "trivia.comment", "trivia.pi", "trivia.whitespace", "trivia.paths_probed", "special_names.loads", "load.forms_rotated", "load.form.str-path", "load.form.Path", "load.form.open-file", "load.form.load_xml-or-stream", "layout.one-line", "layout.crlf", "layout.blank-lines", "layout.tabs", "layout.no-indent", "history.runs", "history.failed_prior_loads",
         "history.style_changes", "baseline.fresh_process", "path.ContextCalibratorList", "path.EntryList", "path.ComparisonList"]
 RULE = ("case = (document IR, rendering = namespace convention x trivia placement, history of prior loads); fingerprint "
         "(canonical written XML + decode of steered packets) must equal the baseline. Renderings: 15 namespace conventions; inter-element whitespace layouts "
@@ -80,6 +80,8 @@ def load_any_form(xml, prefix):
     from space_packet_parser.xtce.definitions import XtcePacketDefinition
     _FORM["n"] += 1
     form = _FORM["n"] % 6
+    _FORM["by_form"] = _FORM.get("by_form") or {}
+    _FORM["by_form"][form] = _FORM["by_form"].get(form, 0) + 1
     if form in (0, 1):
         return load_definition(xml, prefix)
     if _FORM["dir"] is None:
@@ -273,6 +275,8 @@ def run(ctx):
                         "baseline": base[1][:16]})
     special_names(ctx)
     ctx.count("load.forms_rotated", _FORM["n"])
+    for f_, name_ in ((2, "str-path"), (3, "Path"), (4, "open-file"), (5, "load_xml-or-stream")):
+        ctx.count(f"load.form.{name_}", (_FORM.get("by_form") or {}).get(f_, 0))
     if _FORM["dir"] is not None:
         import shutil
         shutil.rmtree(_FORM["dir"], ignore_errors=True)
